@@ -252,6 +252,51 @@ def _linearizable(ops: list, initial: list, final: tuple) -> bool:
     return False
 
 
+# ---------------------------------------------------------------------------
+# long backlogs: queue lengths at every power of two +-1 up to 2^17 + 1 (one growing history per broker)
+# ---------------------------------------------------------------------------
+BACKLOG_SIZES = sorted({2 ** k + d for k in range(4, 18) for d in (-1, 0, 1)})
+
+
+def _backlog_unit(backend: str) -> Partial:
+    p = Partial()
+    sy = BrokerSys(backend)
+    sy.reset()
+    b = sy.b
+    n = 0
+    rp = {"kind": "backlog", "backend": backend}
+    for size in BACKLOG_SIZES:
+        ids = [f"i{j:06d}" for j in range(n, size)]
+        singles = ids[: min(8, len(ids))]
+        for x in singles:
+            b.route_invocation(x)
+        if ids[len(singles):]:
+            b.route_invocations(ids[len(singles):])
+        n = size
+        p.count("backlog_lengths")
+        p.count("transitions", len(singles) + 2)
+        c = b.count_invocations()
+        if c != n:
+            p.violation({"clause": "backlog:count-differs-from-routed-minus-retrieved", "backend": backend, "length": size},
+                        {"routed": n, "retrieved": 0, "count": c}, rp)
+            return p
+    k = n if backend == env.MEM else 64
+    got = [b.retrieve_invocation() for _ in range(k)]
+    got = [None if g is None else str(g) for g in got]
+    p.count("transitions", k + 1)
+    want = [f"i{j:06d}" for j in range(k)]
+    if got != want:
+        first = next(i for i, (g, w) in enumerate(zip(got, want)) if g != w)
+        p.violation({"clause": "backlog:retrieval-not-first-in-first-out", "backend": backend, "length": n},
+                    {"position": first, "got": got[first], "expected": want[first]}, rp)
+        return p
+    c = b.count_invocations()
+    if c != n - k:
+        p.violation({"clause": "backlog:count-differs-from-routed-minus-retrieved", "backend": backend, "length": n},
+                    {"routed": n, "retrieved": k, "count": c}, rp)
+    return p
+
+
 def build(desc: dict) -> Scn:
     return Scn(desc)
 
@@ -260,6 +305,9 @@ def run(ctx: Ctx) -> None:
     depth = 8 if ctx.thorough else 6
     part = par.pmap(_hist_unit, [depth])[0] if False else _hist_unit(depth)
     ctx.merge(part)
+    if not getattr(ctx, "only", None) or "backlog" in ctx.only:
+        for part in par.pmap(_backlog_unit, list(env.BACKENDS)):
+            ctx.merge(part)
     ds = []
     for prog, acts in PROGRAMS.items():
         for q in QUEUES:
@@ -277,6 +325,8 @@ def run(ctx: Ctx) -> None:
                 "deque (result, count read-out and stored order compared after every operation); schedules: every "
                 "schedule with <= bound deviations of 2-3 actors (SQLite: one app object each, SQL-statement points; memory: one shared broker, source-line points), each checked for "
                 "linearizability against the deque by brute force over the orders of the overlapping calls")
+    ctx.rule += (f"; long backlogs: one growing history per broker through the {len(BACKLOG_SIZES)} queue lengths 2^k-1, 2^k, 2^k+1 "
+                 "(k = 4..17), count compared at each, then drained (memory: completely, SQLite: the first 64) in first-in-first-out order")
     ctx.assume("julianday('now') ordering column is real (non-decreasing) time; ties are broken by rowid")
     ctx.assume("in-memory broker schedules (threads sharing one broker object, a point at every line of mem_broker) go beyond the quantifier text, which names the SQLite broker only; same programs, same oracle")
 
@@ -285,6 +335,8 @@ def replay(payload: dict) -> bool:
     r = payload["replay"]
     if r.get("kind") == "schedule":
         return e1.replay_schedule(r)
+    if r.get("kind") == "backlog":
+        return bool(_backlog_unit(r["backend"]).violations)
     p = Partial()
     impls = [BrokerSys(env.MEM), BrokerSys(env.SQLITE)]
     model = DequeModel()
